@@ -135,6 +135,12 @@ func (u *Unit) fieldAddr(base Term, structT types.Type, idx int) Term {
 				}
 				u.P.privFa[fn] = kid
 			}
+			if stable {
+				if u.P.stableFa == nil {
+					u.P.stableFa = map[string]int{}
+				}
+				u.P.stableFa[fn] = kid
+			}
 		}
 	}
 	u.P.mu.Unlock()
@@ -468,4 +474,45 @@ func fromInitialMemory(v Term) bool {
 			return false
 		}
 	}
+}
+
+// notStable: addr is not inside a field of an `assume_stable` struct type.
+func (u *Unit) notStable(addr Term) Term {
+	u.P.mu.Lock()
+	st := make(map[string]int, len(u.P.stableFa))
+	for k, v := range u.P.stableFa {
+		st[k] = v
+	}
+	u.P.mu.Unlock()
+	if len(st) == 0 {
+		return True
+	}
+	cur := addr
+	for {
+		if strings.HasPrefix(cur.Op, "fa_") {
+			if _, ok := st[cur.Op]; ok {
+				return False
+			}
+			cur = cur.Args[0]
+			continue
+		}
+		if cur.Op == "ia" {
+			cur = cur.Args[0]
+			continue
+		}
+		break
+	}
+	if u.isAllocAtom(cur) {
+		return True
+	}
+	var kinds []int
+	for _, k := range st {
+		kinds = append(kinds, k)
+	}
+	sort.Ints(kinds)
+	var alts []Term
+	for _, k := range kinds {
+		alts = append(alts, Eq(App("akind", SInt, cur), IntLit(int64(k))))
+	}
+	return Not(Or(alts...))
 }
